@@ -49,6 +49,16 @@ def check(ctx):
                 data = [rng.randrange(256) for _ in range(n)]
                 seed = [rng.randrange(256) for _ in range(SEEDW[fn])]
                 lines.append(line(fn, seed, data, off, rng.randrange(0, n + 1)))
+    # structured contents: runs of 00 / FF / 80 / 01 (zero words, all-ones words) inside and at the ends of random data,
+    # at every word phase, with non-zero running values - the values word-at-a-time code treats specially
+    for fn in FNS:
+        for fill in (0, 255, 128, 1):
+            for n in ([1, 2, 3, 4, 5, 7, 8, 9, 12, 16, 17] if not ctx.thorough else list(range(1, 41))):
+                for lead in (0, 1, 2, 3, 4, 5):
+                    data = [rng.randrange(1, 256) for _ in range(lead)] + [fill] * n + [rng.randrange(1, 256) for _ in range(rng.choice([0, 0, 1, 3, 4]))]
+                    seed = [rng.choice([0, 1, 255, rng.randrange(256)]) for _ in range(SEEDW[fn])]
+                    cut = rng.choice([0, lead, lead + (n // 4) * 4, len(data), (len(data) // 4) * 4])
+                    lines.append(line(fn, seed, data, rng.randrange(8), min(cut, len(data))))
     if ctx.thorough:
         for fn in FNS:
             for off in range(8):
@@ -70,7 +80,7 @@ def check(ctx):
         "definitions: bit-serial polynomial division (Crc.tla); CRC-32 is defined over little-endian words with a zero-extended tail, so piecewise evaluation is only promised at multiples of four bytes",
         "reads outside [data, data+length) are observed by ASan on right-aligned exactly sized blocks",
     ]
-    return ctx.finish(rule="(seed,byte) pairs of the 8-bit routines, all messages up to length 3 over {00,01,80,FF} with every split, random messages of all lengths at all alignments with a random split; each call judged against Crc.tla")
+    return ctx.finish(rule="(seed,byte) pairs of the 8-bit routines, all messages up to length 3 over {00,01,80,FF} with every split, random messages of all lengths at all alignments with a random split, runs of 00/FF/80/01 of every short length at every word phase; each call judged against Crc.tla")
 
 
 def replay(ctx, path):
